@@ -89,7 +89,7 @@ func c08History(r *core.Run, p C08Case) {
 	st := "open-empty"
 	fail := false
 	pan := core.Guard(func() {
-		w, err := p.Cfg.cfg().NewWriter2(&sb)
+		w, err := p.Cfg.build().NewWriter2(&sb)
 		if err != nil {
 			r.Violate(cs, site+" → constructor-fails", desc, errStr(err), "nil")
 			fail = true
@@ -304,6 +304,20 @@ func runC08(r *core.Run) {
 			}
 		}
 		rec3(nil)
+	}
+	// configuration histories: a Writer2Config variable verified with configuration A, then set to B
+	{
+		cm := []L2Cfg{{DictCap: 4096, BufSize: 273}, {DictCap: 1 << 20, Props: true, LC: 0, LP: 0, PB: 0}, {DictCap: 65536, Props: true, LC: 1, LP: 2, PB: 3, Matcher: 1}, {DictCap: 6145, BufSize: 8192}, {}}
+		for i := range cm {
+			for j := range cm {
+				if i != j {
+					c := cm[j]
+					pre := cm[i]
+					c.Pre = &pre
+					cases = append(cases, C08Case{Cfg: c, Hist: []string{"wP", "f", "wT", "c"}}, C08Case{Cfg: c, Hist: []string{"w10", "wR", "c"}})
+				}
+			}
+		}
 	}
 	r.Extra("history_cases", len(cases))
 	r.Sample(cases[len(cases)/2])
